@@ -13,11 +13,12 @@
    writes, both write protocols, job trees of any shape and listing order);
    fault_safe_move FULL and for EVERY fault plan (single, double, ... faults): exception => pre-state;
    fault_safe_remove / _clear FULL for every fault plan (CInv; removals destroy data by design);
-   fault_clone REFUTED (confirmed defect, known finding 1);
-   fault_safe_init / _rekey / _clone (the non-refuted part) are NOT proved (larger case analysis): for them only the
-   correspondence speaks (every single fault and sampled double faults of the generated scenarios, oracle
-   evaluated in Coq). *)
-From SV Require Import Base Json MD5 Canon FS Proc Crash CorrC11 C11Proofs C11Remove C11Clone.
+   fault_safe_clone _partial (CInv for every fault plan; completeness of the clean-up / of the copy not proved);
+   the former refutation of clone (partial copy left behind) is gone: repaired in /repo (b1f8528);
+   fault_safe_init FULL for every fault plan; fault_safe_rekey FULL for every fault plan whose errnos are not
+   ENOENT (which signac reads as "not there"; excluded by the property): CInv, and a normal return means the
+   operation is complete. *)
+From SV Require Import Base Json MD5 Canon FS Proc Crash CorrC11 C11Proofs C11Remove C11Clone C11Fault.
 
 (* the prefix induction principle of the crash semantics *)
 Theorem C11_prefix_induction : forall A (I : prog A -> fs -> Prop) (Q : fs -> Prop),
@@ -32,7 +33,7 @@ Print Assumptions C11_prefix_induction.
 (* Job.init: for every crash point (incl. every torn offset of the state point write) of either write
    protocol, from a valid workspace in which the job exists or not *)
 Theorem C11_crash_safe_init : forall frepr wss f0 w1 w2 wr sp force atomic g,
-  WInv frepr wss f0 -> In (w1 :: w2 :: wr) wss ->
+  WInv frepr wss f0 -> In (w1 :: w2 :: wr) wss -> is_jnull sp = false ->
   crash_states (op_prog frepr atomic (KInit (w1 :: w2 :: wr) sp force)) f0 g ->
   CInv frepr (KInit (w1 :: w2 :: wr) sp force) wss f0 g.
 Proof. exact crash_safe_init_thm. Qed.
@@ -46,6 +47,7 @@ Theorem C11_crash_safe_rekey : forall frepr wss f0 w1 w2 wr old nsp atomic g,
   WInv frepr wss f0 -> In (w1 :: w2 :: wr) wss -> In old (job_dirs f0 (w1 :: w2 :: wr)) ->
   old <> calc_id frepr nsp ->
   get f0 (((w1 :: w2 :: wr) ++ [old]) ++ [TMPPFX ++ [] ++ SPF]) = None ->
+  is_jnull nsp = false ->
   crash_states (op_prog frepr atomic (KRekey (w1 :: w2 :: wr) old nsp)) f0 g ->
   CInv frepr (KRekey (w1 :: w2 :: wr) old nsp) wss f0 g.
 Proof. exact crash_safe_rekey_thm. Qed.
@@ -66,12 +68,13 @@ Theorem C11_crash_safe_move : forall frepr wss f0 ws dws i atomic g,
 Proof. exact crash_safe_move_thm. Qed.
 Print Assumptions C11_crash_safe_move.
 
-(* Project.clone into ANOTHER project (shutil.copytree over a job tree of any shape): nothing outside the new
-   directory changes, the new directory is absent or a directory, and its state point file is absent, not
-   parseable (empty / torn) or the complete copy of the source's — so it never validates with anything but
-   the source's state point; if the destination exists nothing happens at all *)
+(* Project.clone (shutil.copytree over a job tree of any shape, then — after a failed copy into a directory
+   this call created — shutil.rmtree(ignore_errors)): nothing outside the new directory changes, the new
+   directory is absent or a directory, and its state point file is absent, not parseable (empty / torn) or
+   the complete copy of the source's — so it never validates with anything but the source's state point; if
+   the destination exists (other project, or the same project) nothing is touched at all *)
 Theorem C11_crash_safe_clone : forall frepr wss f0 ws dws i atomic g,
-  WInv frepr wss f0 -> In ws wss -> In dws wss -> ws <> dws -> In i (job_dirs f0 ws) ->
+  WInv frepr wss f0 -> In ws wss -> In dws wss -> In i (job_dirs f0 ws) ->
   crash_states (op_prog frepr atomic (KClone ws i dws)) f0 g ->
   CInv frepr (KClone ws i dws) wss f0 g.
 Proof. exact crash_safe_clone_thm. Qed.
@@ -108,6 +111,32 @@ Theorem C11_fault_safe_move : forall frepr wss f0 ws dws i atomic plan,
 Proof. exact fault_safe_move_thm. Qed.
 Print Assumptions C11_fault_safe_move.
 
+(* Job.init under EVERY fault plan (any number of failing calls, any errnos, stats included): CInv, and a
+   normal return means the job directory validates and keeps its data.  Pre-state side condition: no stale
+   temp file (automatic when the job directory does not exist) *)
+Theorem C11_fault_safe_init : forall frepr wss f0 w1 w2 wr sp force atomic plan,
+  WInv frepr wss f0 -> In (w1 :: w2 :: wr) wss -> is_jnull sp = false ->
+  get f0 (((w1 :: w2 :: wr) ++ [calc_id frepr sp]) ++ [TMPPFX ++ [] ++ SPF]) = None ->
+  let o := KInit (w1 :: w2 :: wr) sp force in
+  let '(g, out) := run_fault plan 0 (op_prog frepr atomic o) f0 in
+  CInv frepr o wss f0 g /\ (out = inl tt -> post_ok frepr o f0 g = true).
+Proof. exact fault_safe_init_thm. Qed.
+Print Assumptions C11_fault_safe_init.
+
+(* the re-key protocol under EVERY fault plan without ENOENT: the rollback path (failing directory rename,
+   failing rollback, failing re-read), the failing backup removal, and every fault inside the final init *)
+Theorem C11_fault_safe_rekey : forall frepr wss f0 w1 w2 wr old nsp atomic plan,
+  WInv frepr wss f0 -> In (w1 :: w2 :: wr) wss -> In old (job_dirs f0 (w1 :: w2 :: wr)) ->
+  old <> calc_id frepr nsp ->
+  get f0 (((w1 :: w2 :: wr) ++ [old]) ++ [TMPPFX ++ [] ++ SPF]) = None ->
+  is_jnull nsp = false ->
+  (forall m, plan m <> Some ENOENT) ->
+  let o := KRekey (w1 :: w2 :: wr) old nsp in
+  let '(g, out) := run_fault plan 0 (op_prog frepr atomic o) f0 in
+  CInv frepr o wss f0 g /\ (out = inl tt -> post_ok frepr o f0 g = true).
+Proof. exact fault_safe_rekey_thm. Qed.
+Print Assumptions C11_fault_safe_rekey.
+
 (* Job.remove / Job.clear under EVERY fault plan: a failing call has no effect, so the state is still the
    pre-state minus deletions below the job directory (plus the document rewrite): CInv *)
 Theorem C11_fault_safe_remove : forall frepr wss f0 ws i atomic plan,
@@ -122,22 +151,35 @@ Theorem C11_fault_safe_clear : forall frepr wss f0 ws i atomic plan,
 Proof. exact fault_safe_clear_thm. Qed.
 Print Assumptions C11_fault_safe_clear.
 
-(* Project.clone: REFUTED for faults — a write error on a data file raises, yet leaves a destination that
-   validates, that check() does not report and whose data is not intact (known finding 1; the harness
-   replays this fault on the real code) *)
-Theorem C11_fault_safe_clone_refuted :
+(* Project.clone under EVERY fault plan (repaired code: b1f8528).  FULL statement wanted:
+     forall plan, exception => the destination is absent and the tree is the pre-state;
+                  normal return => the copy is complete (post_ok).
+   PROVED (hence _partial): for every fault plan — failing copy steps, failing clean-up steps, failing stats —
+   CInv holds when the destination is fresh; and when the destination exists nothing is touched, provided the
+   lexists() of the destination (call 1) is not among the failing calls.  NOT proved: that the clean-up
+   removes everything after a SINGLE fault and that a normal return implies a complete copy (completeness of
+   rmtree / copytree over arbitrary trees); both are checked by the correspondence for every single fault of
+   the generated scenarios.  A double fault that also defeats the clean-up can leave a validating partial
+   copy: known finding 3 (design-level), which CInv tolerates because the copied state point is the source's. *)
+Theorem C11_fault_safe_clone_partial : forall frepr wss f0 ws dws i atomic plan,
+  WInv frepr wss f0 -> In ws wss -> In dws wss -> In i (job_dirs f0 ws) ->
+  get f0 (dws ++ [i]) = None \/ plan 1%nat = None ->
+  CInv frepr (KClone ws i dws) wss f0 (fst (run_fault plan 0 (op_prog frepr atomic (KClone ws i dws)) f0)).
+Proof. exact fault_safe_clone_thm. Qed.
+Print Assumptions C11_fault_safe_clone_partial.
+
+(* the former refutation witness (write error on a data file): with the repair the caller sees an exception,
+   the destination is gone and every entry equals the pre-state *)
+Theorem C11_fault_clone_repaired_witness :
   match find_occ cw_sig 0 (map fst (trace (op_prog cw_repr true cw_op) cw_f0)) 0 with
   | None => False
   | Some k =>
       let '(g, out) := run_fault (single k EIO) 0 (op_prog cw_repr true cw_op) cw_f0 in
-      (exists e, out = inr e)
-      /\ validates cw_repr g cw_b cw_id = true
-      /\ check_report cw_repr g cw_b = Some []
-      /\ holds_file g (cw_b ++ [cw_id]) [cw_data] cw_bytes = false
-      /\ exists_ g (cw_b ++ [cw_id]) = true /\ exists_ cw_f0 (cw_b ++ [cw_id]) = false
+      (exists e, out = inr e) /\ exists_ g (cw_b ++ [cw_id]) = false /\
+      forallb (fun e => node_same (get cw_f0 (fst e)) (get g (fst e))) (cw_f0 ++ g) = true
   end.
-Proof. exact clone_fault_witness. Qed.
-Print Assumptions C11_fault_safe_clone_refuted.
+Proof. exact clone_fault_repaired_witness. Qed.
+Print Assumptions C11_fault_clone_repaired_witness.
 
 (* licence for the correspondence step: when a crash_safe theorem covers the case's operation and the
    implementation's observations agree with the model (no mismatch), every crash state the implementation
